@@ -5,9 +5,10 @@
    - reads of the environment / wall clock: there must be none in reachable code.
    The inventory of such sites is regenerated from the source on every run (gen/Scan.v);
    the classification below is hand-written and checked against it. *)
-From WI Require Import Lib.Base Lib.Time.
-From Coq Require Import String.
+From WI Require Import Lib.Base Lib.Time Lib.Info.
+From Coq Require Import String Permutation.
 From WI Require gen.Scan.
+From WI Require Model.Dispatch Model.Render.
 Open Scope N_scope.
 
 (* ---------- map ranges ---------- *)
@@ -44,16 +45,50 @@ Definition ranges_benign (ranges : list (string * N * string)) (reach : list str
 (* ---------- environment reads and time formatting ---------- *)
 Inductive env_status :=
 | EUtcByLibrary      (* the formatted time.Time comes from crypto/x509, which returns UTC *)
-| EEncodedClock.     (* reads the wall clock of the value time.Parse just returned (its year; its text in the
+| EEncodedClock      (* reads the wall clock of the value time.Parse just returned (its year; its text in the
                         parse layout, compared with the input and not output): the offset is the parsed one
                         whichever Location carries it, so the result is a function of the input text *)
+| EProgramName       (* os.Args in main: argv[0] appears only in the usage text and the --version line,
+                        never in a report (the file names come from flag.Args and ARE the name input) *)
+| EStderrDiagnostic. (* the standard logger: a line on standard error stamped with the local wall-clock
+                        time; the report is what is written to standard output *)
 
 Definition env_class : list (string * string * N * env_status) := [
   ("internal/file:getCertificateInfo", "format-zone-unknown", 1, EUtcByLibrary);
   ("internal/file:getCertificateInfo", "format-zone-unknown", 2, EUtcByLibrary);
   ("internal/asn1struct:utcTime", "format-zone-unknown", 1, EEncodedClock);
-  ("internal/asn1struct:utcTime", "format-zone-unknown", 2, EEncodedClock)
+  ("internal/asn1struct:utcTime", "format-zone-unknown", 2, EEncodedClock);
+  ("cmd/decipher:main", "env:os.Args", 1, EProgramName);
+  ("cmd/decipher:main", "env:os.Args", 2, EProgramName);
+  ("cmd/decipher:main", "clock:log.Fatalln", 1, EStderrDiagnostic);
+  ("cmd/decipher:inspectDirectory", "clock:log.Printf", 1, EStderrDiagnostic);
+  ("cmd/decipher:inspectDirectory", "clock:log.Printf", 2, EStderrDiagnostic);
+  ("cmd/decipher:inspectDirectory", "clock:log.Printf", 3, EStderrDiagnostic);
+  ("cmd/decipher:inspectFile", "clock:log.Printf", 1, EStderrDiagnostic);
+  ("cmd/decipher:inspectFile", "clock:log.Printf", 2, EStderrDiagnostic);
+  ("cmd/decipher:inspectStdin", "clock:log.Printf", 1, EStderrDiagnostic);
+  ("internal/file:Inspect", "clock:log.Println", 1, EStderrDiagnostic)
 ]%string.
+
+(* which kinds of site a status may be given to (checked for the table above by vm_compute) *)
+Definition status_fits (k : string) (st : env_status) : bool :=
+  match st with
+  | EUtcByLibrary | EEncodedClock => String.eqb k "format-zone-unknown"
+  | EProgramName => String.eqb k "env:os.Args"
+  | EStderrDiagnostic => String.prefix "clock:log." k
+  end.
+
+Definition env_class_wf (cl : list (string * string * N * env_status)) : bool :=
+  forallb (fun c => match c with (_, k, _, st) => status_fits k st end) cl.
+
+Definition site_matches (e : string * string * N) (c : string * string * N * env_status) : bool :=
+  match e, c with (f, k, o), (f', k', o', _) => String.eqb f f' && String.eqb k k' && (o =? o') end.
+
+Definition env_status_of (e : string * string * N) : option env_status :=
+  match find (site_matches e) env_class with
+  | Some (_, _, _, st) => Some st
+  | None => None
+  end.
 
 Definition env_site_ok (e : string * string * N) : bool :=
   match e with (f, k, o) =>
@@ -102,3 +137,197 @@ Definition date_attr_at (offset sec : Z) : bytes := fmt_date (civil_of_unix sec 
 Definition date_attr (sec : Z) : bytes := date_attr_at 0 sec.
 Definition keystore_date_at (offset sec : Z) : bytes := fmt_rfc3339 sec offset.
 Definition keystore_date (sec : Z) : bytes := keystore_date_at 0 sec.
+
+(* ================================================================================================
+   The process environment, and report-building programs that may consult it.
+
+   Everything a Go program can observe besides the name and the content of the file is collected in
+   [env]; a report-building step is a [prog]: a tree whose nodes are exactly the constructs the static
+   inventory (tools/scan -> gen/Scan.v) lists, each carrying the site (function, kind, ordinal) under
+   which the scanner reports it.  [run e n p] executes p in environment e; n counts the runtime's
+   nondeterministic choices made so far in this process (the k-th map range / the k-th set of
+   goroutines gets the k-th choice), so that a repetition in the same process is the same e with
+   another n.
+   ================================================================================================ *)
+Definition site := (string * string * N)%type.         (* as in gen.Scan.env_reads *)
+Definition site_func (s : site) : string := fst (fst s).
+Definition site_kind (s : site) : string := snd (fst s).
+
+Record env := mkenv {
+  e_read   : bytes -> bytes;       (* the answer to a query of the environment: os.Getenv LANG / LC_ALL / TZ / HOME ...,
+                                      os.Getwd and filepath.Abs, os.Args and os.Executable, os.Hostname, os.Getpid,
+                                      user.Current, runtime.GOMAXPROCS and NumCPU, net lookups, time.Now, random sources *)
+  e_zone   : Z -> Z;               (* time.Local: seconds east of UTC in effect at an instant *)
+  e_choice : nat -> list nat       (* the k-th choice of the runtime: the order of a map range, the completion order of goroutines *)
+}.
+
+(* an order chosen by the runtime, coded as insertion positions: EVERY code yields a permutation
+   and every permutation has a code (Proofs: shuffle_perm, shuffle_complete) *)
+Fixpoint insert_at {X} (n : nat) (x : X) (l : list X) : list X :=
+  match n, l with
+  | O, _ => x :: l
+  | S _, [] => [x]
+  | S n', y :: r => y :: insert_at n' x r
+  end.
+
+Fixpoint shuffle {X} (code : list nat) (l : list X) : list X :=
+  match l with
+  | [] => []
+  | x :: r => insert_at (hd O code) x (shuffle (tl code) r)
+  end.
+
+(* the Location a time.Time value carries when it is formatted *)
+Inductive loc := LUTC | LLocal | LFixed (off : Z).
+Definition is_utc (l : loc) : bool := match l with LUTC => true | _ => false end.
+Definition offset_in (e : env) (l : loc) (sec : Z) : Z :=
+  match l with LUTC => 0%Z | LLocal => e_zone e sec | LFixed o => o end.
+
+Inductive prog (A : Type) : Type :=
+| Ret (a : A)
+  (* kinds "env:*": a call or variable whose value comes from the process environment *)
+| ReadEnv (s : site) (query : bytes) (k : bytes -> prog A)
+  (* kinds "format-utc" / "format-zone-unknown" / "time:*": a calendar field or text of the instant
+     [sec] in the location [l]; [fmt offset sec] is the text (date_attr_at, keystore_date_at, ...) *)
+| FormatTime (s : site) (l : loc) (fmt : Z -> Z -> bytes) (sec : Z) (k : bytes -> prog A)
+  (* kinds "clock:log.*": a time-stamped line on standard error; nothing is added to the report *)
+| LogLine (s : site) (msg : bytes) (k : prog A)
+  (* `for key := range m` (gen.Scan.map_ranges: function, ordinal): the keys arrive in an order of the runtime's choosing *)
+| RangeMap (f : string) (ord : N) (keys : list bytes) (k : list bytes -> prog A)
+  (* a `go` statement per job and collecting the results as they arrive (gen.Scan.go_statements) *)
+| Gather (s : site) (results : list info) (k : list info -> prog A).
+Arguments Ret {A} a.
+Arguments ReadEnv {A} s query k.
+Arguments FormatTime {A} s l fmt sec k.
+Arguments LogLine {A} s msg k.
+Arguments RangeMap {A} f ord keys k.
+Arguments Gather {A} s results k.
+
+Fixpoint run {A} (e : env) (n : nat) (p : prog A) : A * nat :=
+  match p with
+  | Ret a => (a, n)
+  | ReadEnv _ q k => run e n (k (e_read e q))
+  | FormatTime _ l f sec k => run e n (k (f (offset_in e l sec) sec))
+  | LogLine _ _ k => run e n k
+  | RangeMap _ _ keys k => run e (S n) (k (shuffle (e_choice e n) keys))
+  | Gather _ rs k => run e (S n) (k (shuffle (e_choice e n) rs))
+  end.
+
+Fixpoint has_prefix (p k : string) : bool :=
+  match p, k with
+  | EmptyString, _ => true
+  | String a p', String b k' => Ascii.eqb a b && has_prefix p' k'
+  | String _ _, EmptyString => false
+  end.
+
+(* the kind under which the scanner reports a formatting site, against the location of the value:
+   "format-utc" is reported only for a receiver that is syntactically x.UTC() *)
+Definition fmt_kind_ok (k : string) (l : loc) : bool :=
+  (String.eqb k "format-utc" && is_utc l) || String.eqb k "format-zone-unknown" || has_prefix "time:" k.
+
+(* [obeys einv rinv reach ngo p]: p is a program the inventory describes.  Every node sits at a site
+   of the inventory (einv: environment/clock/format sites in reachable functions; rinv: map ranges;
+   reach: reachable functions; ngo: number of go statements), is of the construct its kind names,
+   and keeps the promise of the hand classification of its site (env_class / range_class above):
+     EUtcByLibrary      the value formatted there is in UTC
+     EEncodedClock      the value carries the offset parsed from the input
+     EProgramName       what was read does not reach the report
+     RSortedAfter       the keys are sorted before anything else is done with them
+     RLookupOnly        what follows does not depend on the order of the keys
+   (RUnreachable is checked against [reach]).  These promises are the trusted part; everything else
+   is checked: a site that is not classified, or a go statement, makes the instance lemmas fail. *)
+Section Obeys.
+  Variable einv : list site.
+  Variable rinv : list (string * N * string).
+  Variable reach : list string.
+  Variable ngo : N.
+
+  Inductive obeys {A : Type} : prog A -> Prop :=
+  | ob_ret : forall a, obeys (Ret a)
+  | ob_env : forall s q k,
+      In s einv -> has_prefix "env:" (site_kind s) = true ->
+      (env_status_of s = Some EProgramName ->
+         forall b1 b2 e n, fst (run e n (k b1)) = fst (run e n (k b2))) ->
+      (forall b, obeys (k b)) ->
+      obeys (ReadEnv s q k)
+  | ob_fmt : forall s l f sec k,
+      In s einv -> fmt_kind_ok (site_kind s) l = true ->
+      (env_status_of s = Some EUtcByLibrary -> l = LUTC) ->
+      (env_status_of s = Some EEncodedClock -> exists off, l = LFixed off) ->
+      (forall b, obeys (k b)) ->
+      obeys (FormatTime s l f sec k)
+  | ob_log : forall s m k,
+      In s einv -> has_prefix "clock:log." (site_kind s) = true -> obeys k ->
+      obeys (LogLine s m k)
+  | ob_range : forall f o keys k,
+      (exists t, In (f, o, t) rinv) -> mem_string f reach = true ->
+      (lookup_range f o range_class = Some RSortedAfter -> exists k', forall l, k l = k' (sort_strings l)) ->
+      (lookup_range f o range_class = Some RLookupOnly ->
+         forall l1 l2 e n, Permutation l1 l2 -> fst (run e n (k l1)) = fst (run e n (k l2))) ->
+      (forall l, obeys (k l)) ->
+      obeys (RangeMap f o keys k)
+  | ob_gather : forall s rs k,
+      (0 < ngo)%N -> (forall l, obeys (k l)) ->
+      obeys (Gather s rs k).
+End Obeys.
+
+(* ---------- the modelled pipeline: sniffers and parsers (programs) behind the dispatcher of
+   Model/Dispatch.v, then the printer ---------- *)
+Record pipeline := mkpipeline {
+  pl_sniff : bytes -> bytes -> prog bool;                 (* sniffer name, content *)
+  pl_parse : bytes -> bytes -> prog (result info);        (* parser name, content *)
+  pl_print : info -> prog bytes                           (* cmd/decipher printInfo *)
+}.
+
+Definition describe (pl : pipeline) (e : env) (n : nat) (name content : bytes) : result bytes :=
+  match Dispatch.inspect (fun s d => fst (run e n (pl_sniff pl s d)))
+                         (fun p d => fst (run e n (pl_parse pl p d))) name content with
+  | Ok i => Ok (fst (run e n (pl_print pl i)))
+  | Err m => Err m
+  | Panic m => Panic m
+  end.
+
+Definition pipeline_obeys einv rinv reach ngo (pl : pipeline) : Prop :=
+  (forall s d, obeys einv rinv reach ngo (pl_sniff pl s d)) /\
+  (forall p d, obeys einv rinv reach ngo (pl_parse pl p d)) /\
+  (forall i, obeys einv rinv reach ngo (pl_print pl i)).
+
+(* ---------- an instance: the sites of the source as it is ---------- *)
+Definition lines_of (d : bytes) : list bytes :=
+  fold_right (fun b acc => if b =? 10 then [] :: acc
+                           else match acc with [] => [[b]] | l :: r => (b :: l) :: r end) [] d.
+
+(* PGP key: identities collected by ranging over a map, sorted (internal/file:pgpKey, map range 1),
+   creation date formatted after .UTC() (format-utc 1); certificate: validity dates as crypto/x509
+   returns them (getCertificateInfo, format-zone-unknown 1 and 2); anything else fails with a
+   diagnostic (internal/file:Inspect, clock:log.Println 1).  The content stands for the decoded
+   file: its lines are the user IDs, its length the instant. *)
+Definition pgp_after_sort (sec : Z) (sorted : list bytes) : prog (result info) :=
+  FormatTime ("internal/file:pgpKey", "format-utc", 1)%string LUTC date_attr_at sec (fun d =>
+    Ret (Ok (Info (bs "GPG/PGP public key") [(bs "Created", d)] (map (fun k => leaf k []) sorted)))).
+
+Definition sample_parse (parser content : bytes) : prog (result info) :=
+  let sec := (1709335800 + Z.of_nat (List.length content))%Z in
+  if bytes_eqb parser (bs "PGPPublicKey") then
+    RangeMap "internal/file:pgpKey" 1 (lines_of content) (fun keys => pgp_after_sort sec (sort_strings keys))
+  else if bytes_eqb parser (bs "ASN1File") then
+    FormatTime ("internal/file:getCertificateInfo", "format-zone-unknown", 1)%string LUTC date_attr_at sec (fun nb =>
+      FormatTime ("internal/file:getCertificateInfo", "format-zone-unknown", 2)%string LUTC date_attr_at (sec + 86400)%Z (fun na =>
+        Ret (Ok (Info (bs "x.509v3 certificate") [(bs "Not before", nb); (bs "Not after", na)] []))))
+  else
+    LogLine ("internal/file:Inspect", "clock:log.Println", 1)%string (bs "parse error") (Ret (Err "parse error")).
+
+Definition sample_pipeline : pipeline :=
+  mkpipeline (fun _ d => Ret (negb (bytes_eqb d []))) sample_parse (fun i => Ret (Render.print_info i 0)).
+
+(* the two seeded changes, as programs *)
+(* cmd/decipher: characters outside ASCII are escaped unless LC_ALL / LC_CTYPE / LANG names UTF-8 *)
+Definition locale_print (i : info) : prog bytes :=
+  ReadEnv ("cmd/decipher:localeIsUTF8", "env:os.Getenv", 1)%string (bs "LANG") (fun v =>
+    Ret (if bytes_eqb v (bs "C")
+         then Render.print_info_with (fun s => map (fun b => if 128 <=? b then 63 else b) s) i 0
+         else Render.print_info i 0)).
+
+(* internal/file:PEMFile: the blocks parsed by workers, results appended in completion order *)
+Definition parallel_blocks (blocks : list info) : prog (result info) :=
+  Gather ("internal/file:parsePEMBlocks", "go", 1)%string blocks (fun done =>
+    Ret (Ok (Info (bs "multiple PEM blocks") [] done))).
